@@ -223,7 +223,7 @@ def run(prop, tier, seed, replay=None):
             rep.violation(sig, text, dict(backend=r["backend"], history=r["history"], observation=o, clause=clause))
     rep.notes["rejections_belonging_to_other_property"] = skipped
     rep.assumptions += ["crash = process death (SIGKILL / exit without shutdown); power loss and torn pages are out of scope",
-                        "a crash point's file state is taken as the database + WAL files as they are on disk when the statement is about to run (copied), cross-checked by real SIGKILL re-runs",
+                        "a crash point's file state is taken as the database, WAL and rollback-journal files as they are on disk when the statement is about to run (copied), cross-checked by real SIGKILL re-runs",
                         "virtual clock: datetime.now / time.time / time.monotonic are shifted by the history's ticks; MaxBuffered = 64, AgeMust = 15 s are the property layer's reading of 'about 50' and 'about ten seconds'",
                         "bulk calls are either all inserts or all upserts (no order is assumed between the two groups of a mixed bulk)"]
     return rep.finish()
